@@ -267,6 +267,7 @@ func ruleShapeFaults(cfg shapeConfig) ruleFunc {
 				}
 				mu.Unlock()
 				if cfg.hostile {
+					it.Hostile = true
 					it.allocLimit = func(n int64, in ssa.Instruction, s *State) string {
 						limit := int64(4*it.inputLen) + 1<<16
 						if n > limit {
